@@ -147,3 +147,16 @@ package controlcommands
 //@   property C12 C17
 //@   modifies nothing
 //@   ensures fresh(c) && c.Source == source && c.Event == event && c.Destination == destination && c.EnvironmentId == envId && c.TargetList == receivers
+
+// ---------------------------------------------------------------------------------------------------------
+// C12 (each command gets exactly one answer): the queue's worker hands the consolidated result of every command it has
+// committed to that command's caller - a plain, blocking send of exactly what commit returned - before it takes the
+// next entry; a result is never dropped because the caller is not at its receive yet.
+//@ closure (*CommandQueue).Start #1
+//@   property C12
+//@   ghostvar pending bool = false
+//@   ghostvar resp MesosCommandResponse = nil
+//@   on aftercall (*CommandQueue).commit : assert !pending ; pending = true ; resp = result0
+//@   on send * : assert pending && value == resp ; pending = false
+//@   loop 1 invariant !pending
+//@   ensures !pending
